@@ -9,7 +9,12 @@
      VP id N k dist[N*N] <tree>            -> inv=<b> holds=<b> | <row of query 0: i:d ...> | ...   (NONE = None)
                                               tree tokens:  ( item thr L R )   and  -  for NULL
      KN id N K dist[N*N] | l0 ... | l1 ... -> one of t/f per row q = 0..N-1 : is_knn_b dist N q K l_q
-     ME id N dist[N*N]                     -> metric_b: true / false *)
+     ME id N dist[N*N]                     -> metric_b: true / false
+     PR id self perp tol dbl_min K dd[K]   -> perp_row_r with binary64 exp / log as the oracles (self = -1: K-NN overload)
+                                              -> found(0/1) beta row[K]   (hex floats)   or   NONE
+     GM id N theta slack fuel Y[2N] nnz row[N+1] col[nnz] val[nnz]
+                                           -> bh_gradient on tsne_tree slack fuel (QuadTree(Y, N), computeGradient):
+                                              OK dC[2N] (hex floats) / NOTREE / FUEL / OOB i / NONE *)
 open C17_model
 
 let rec pos_of_int n = if n = 1 then XH else if n land 1 = 1 then XI (pos_of_int (n lsr 1)) else XO (pos_of_int (n lsr 1))
@@ -65,6 +70,41 @@ let string_of_q (x : q) =
   if x.qden = XH then string_of_z x.qnum else string_of_z x.qnum ^ "/" ^ string_of_pos x.qden
 
 let qc_of_string s : qc = q2Qc (q_of_string s)
+
+(* ---- binary64 <-> Q (for the exp / log oracles and for printing) ---- *)
+let rec bits_of_pos acc = function XH -> 1 :: acc | XO p -> bits_of_pos (0 :: acc) p | XI p -> bits_of_pos (1 :: acc) p
+(* p = m * 2^e with m the leading (at most 62) bits; the rest is dropped (sticky bit kept) *)
+let mant_exp_of_pos (p : positive) : float * int =
+  let bl = bits_of_pos [] p in
+  let rec take k acc l = if k = 0 then (acc, l) else match l with [] -> (acc, []) | b :: r -> take (k - 1) (acc * 2 + b) r in
+  let (m, rest) = take 61 0 bl in
+  let sticky = if List.exists (fun b -> b = 1) rest then 1 else 0 in
+  (float_of_int (m * 2 + (if rest = [] then 0 else sticky)), if rest = [] then -1 else List.length rest - 1)
+let rec is_pow2 = function XH -> true | XO p -> is_pow2 p | XI _ -> false
+let float_of_q (x : q) : float =
+  (* a function of the VALUE of x: dyadic x (every number the oracles see) convert the same way in every
+     representation (trailing zero bits change neither the leading bits nor the sticky bit); others are reduced *)
+  let x = if is_pow2 x.qden then x else qred x in
+  let (md, ed) = mant_exp_of_pos x.qden in
+  match x.qnum with
+  | Z0 -> 0.0
+  | Zpos p -> let (mn, en) = mant_exp_of_pos p in ldexp (mn /. md) (en - ed)
+  | Zneg p -> let (mn, en) = mant_exp_of_pos p in -. ldexp (mn /. md) (en - ed)
+let rec pos_shift p k = if k <= 0 then p else pos_shift (XO p) (k - 1)
+let q_of_float (x : float) : q =
+  if x = 0.0 then { qnum = Z0; qden = XH }
+  else if Float.is_nan x || Float.abs x = Float.infinity then failwith "oracle returned a non-finite value"
+  else begin
+    let (m, e) = Float.frexp x in
+    let mi = ref (Int64.to_int (Int64.of_float (Float.ldexp (Float.abs m) 53))) and e' = ref (e - 53) in
+    while !mi land 1 = 0 do mi := !mi lsr 1; e' := !e' + 1 done;
+    let num = if !e' >= 0 then pos_shift (pos_of_int !mi) !e' else pos_of_int !mi in
+    let den = if !e' >= 0 then XH else pos_shift XH (- !e') in
+    { qnum = (if x > 0.0 then Zpos num else Zneg num); qden = den }
+  end
+(* functions of the VALUE of the argument (float_of_q reduces first) *)
+let exp_oracle (x : q) : q = q_of_float (exp (float_of_q x))
+let log_oracle (x : q) : q = q_of_float (log (float_of_q x))
 
 let buf_of_array (a : qc array) (cols : int) : qc buf =
   fun n d -> let i = int_of_nat n * cols + int_of_nat d in
@@ -187,6 +227,40 @@ let () =
                   | Some l -> List.iter (fun (i, d) -> Printf.printf " %s:%s" (string_of_z i) (string_of_z d)) l)
                done
              end
+           | "PR" ->
+             let self = nexti () in
+             let perp = q_of_string (next ()) in
+             let tol = q_of_string (next ()) in
+             let dmin = q_of_string (next ()) in
+             let k = nexti () in
+             let dd = List.init k (fun _ -> q_of_string (next ())) in
+             let selfo = if self < 0 then None else Some (nat_of_int self) in
+             (match perp_row_r exp_oracle log_oracle dmin tol selfo dd perp with
+              | (found, Some (beta, row)) ->
+                Printf.printf " %d %h" (if found then 1 else 0) (float_of_q beta);
+                List.iter (fun v -> Printf.printf " %h" (float_of_q v)) row
+              | (_, None) -> print_string " NONE")
+           | "GM" ->
+             let n = nexti () in
+             let theta = q_of_string (next ()) in
+             let slack = q_of_string (next ()) in
+             let fuel = nexti () in
+             let data = List.init n (fun _ -> let x = q_of_string (next ()) in let y = q_of_string (next ()) in (x, y)) in
+             let nnz = nexti () in
+             let row = Array.init (n + 1) (fun _ -> nexti ()) in
+             let col = Array.init nnz (fun _ -> nexti ()) in
+             let v = Array.init nnz (fun _ -> q_of_string (next ())) in
+             let rows = List.init n (fun r ->
+               List.init (max 0 (row.(r + 1) - row.(r))) (fun j -> (nat_of_int col.(row.(r) + j), v.(row.(r) + j)))) in
+             (match tsne_tree slack (nat_of_int fuel) data (nat_of_int n) with
+              | None -> print_string " NOTREE"
+              | Some OutOfFuel -> print_string " FUEL"
+              | Some (OOB0 i) -> Printf.printf " OOB %d" (int_of_nat i)
+              | Some (Done (_, t)) ->
+                (match bh_gradient data rows theta t with
+                 | None -> print_string " NONE"
+                 | Some g -> print_string " OK";
+                   List.iter (fun (a, b) -> Printf.printf " %h %h" (float_of_q a) (float_of_q b)) g))
            | _ -> print_string " BADCASE")
         with e -> print_string (" ERROR " ^ Printexc.to_string e));
         print_newline ()
